@@ -228,3 +228,38 @@ def invalid_calls(S, fmt, ch, rate, mode, rng, cfg=None):
     for _ in range(40):
         S.add(rng.choice(pool))
     S.add("errq 0", "close 0", "open 1 %s r 1 %d %d %d" % (rt, fmt if scen.major(fmt) == scen.RAW else 0, ch, rate), "read 1 %s f 30" % T, "close 1")
+
+
+def invalid_probe(S, fmt, ch, rate, mode, rng, cfg=None):
+    """C09, systematic: for every kind of invalid call x every caller type: put the handle in a state where read and write
+    positions differ and the last operation was a read (or a write), issue the invalid call, then probe: a read (and a write in
+    rw mode) must behave as if the invalid call had not happened (data compared by the validator)"""
+    T0 = type_for(fmt)
+    lc = scen.lossless_class(fmt, T0)
+    cls, par = lc if lc else ("noise", 0)
+    rt = scen.route_for(fmt, "fd")
+    kinds = []
+    for T in "sifd":
+        kinds += ["read 0 %s i -1" % T, "write 0 %s i -3" % T, "read 0 %s f -2" % T, "write 0 %s f -1" % T]
+        if ch > 1:
+            kinds += ["read 0 %s i %d" % (T, ch + 1), "write 0 %s i 1 gen zeros 1 0" % T, "write 0 %s i %d gen zeros 1 0" % (T, 2 * ch + 1)]
+        kinds += ["read 0 %s f 2" % T if mode == "w" else "write 0 %s f 2 gen zeros 1 0" % T if mode == "r" else "seek 0 0 64"]
+    kinds += ["seek 0 0 3", "seek 0 -1 0", "seek 0 -9 1", "seek 0 1 2" if mode == "r" else "seek 0 -100 2", "seek 0 0 49", "seek 0 2 33" if mode == "r" else "seek 0 2 17" if mode == "w" else "seek 0 0 50",
+              "trunc 0 -1", "cmd 0 12345678 0"]
+    for last in ("read", "write"):
+        S.scn(fmt="0x%x" % fmt, ch=ch, T=T0, kind="invprobe", mode=mode, last=last, **(cfg or {}))
+        S.add("file 1 new", "open 0 %s w 1 %d %d %d" % (rt, fmt, ch, rate), "write 0 %s f 24 gen %s %d %d" % (T0, cls, rng.randint(1, 10 ** 6), par), "close 0")
+        S.add("open 0 %s %s 1 %d %d %d" % (rt, mode, fmt, ch, rate))
+        for k in kinds:
+            if mode == "rw":
+                S.add("seek 0 5 16", "seek 0 12 32")
+                S.add("write 0 %s f 1 gen %s %d %d" % (T0, cls, rng.randint(1, 10 ** 6), par) if last == "write" else "read 0 %s f 2" % T0)
+            elif mode == "r":
+                S.add("seek 0 5 0", "read 0 %s f 2" % T0)
+            S.add(k)
+            S.add("errq 0")
+            if mode != "w":
+                S.add("read 0 %s f 3" % T0)
+            if mode != "r":
+                S.add("write 0 %s f 1 gen %s %d %d" % (T0, cls, rng.randint(1, 10 ** 6), par))
+        S.add("close 0", "open 1 %s r 1 %d %d %d" % (rt, fmt if scen.major(fmt) == scen.RAW else 0, ch, rate), "read 1 %s f 60" % T0, "close 1")
